@@ -148,6 +148,29 @@ def check(rep, tier, seed):
             if j < len(e1[0]["variants"]):
                 dcases.append({"env": G.show_env(e1), "env2": G.show_env(e2), "cmd": "xrt", "ty": "(named 0)", "val": val,
                                "sfx": "-", "_known": True, "_j": j, "_e1": e2, "_e2": e1})
+    # more constructors than one var-int byte holds: 200 variants (declaration order and name order), indices on
+    # both sides of 127/128, extended by 100 more
+    def big_enum(nv, sorted_):
+        vs = [{"name": f"V{(k * 37) % 1000:03d}", "transient": False, "steps": [],
+               "fields": ([] if k % 3 else [{"name": "field0", "ty": G.P("u16"), "opt": False, "transient": None}])}
+              for k in range(nv)]
+        return [{"kind": "enum", "name": "Big", "sorted": sorted_, "variants": vs}]
+    for sorted_ in (False, True):
+        e1, e2 = big_enum(200, sorted_), big_enum(300, sorted_)
+        if sorted_:
+            continue_ok = True      # (sorted: appended names interleave, so only the same-definition round trip is stated)
+        for j in (0, 1, 126, 127, 128, 129, 199):
+            val = variant_value(rng, e1, 0, j)
+            dcases.append({"env": G.show_env(e1), "env2": G.show_env(e1), "cmd": "xrt", "ty": "(named 0)", "val": val,
+                           "sfx": "-", "_known": True, "_j": j, "_e1": e1, "_e2": e1})
+            if not sorted_:
+                dcases.append({"env": G.show_env(e1), "env2": G.show_env(e2), "cmd": "xrt", "ty": "(named 0)", "val": val,
+                               "sfx": "-", "_known": True, "_j": j, "_e1": e2, "_e2": e1})
+        if not sorted_:
+            for j in (200, 255, 256, 299):
+                val = variant_value(rng, e2, 0, j)
+                dcases.append({"env": G.show_env(e2), "env2": G.show_env(e1), "cmd": "xrt", "ty": "(named 0)", "val": val,
+                               "sfx": "-", "_known": False, "_j": j, "_e1": e1, "_e2": e2})
     for c in dcases:
         c["unordered"] = True
     dimpl, dmod = C.run_codec(harness, model, dcases, wd, "dyn")
